@@ -5,6 +5,7 @@ from ..core import AnalysisError, u, walk_local, enclosing_stmt
 from ..lib import (construct, std_facts, facts_at, def_of, facts_imply,
                    returns_of, in_subtree)
 from ..resolve import store_accesses
+from .common import allowed_stores
 
 PARSE = 'config.ParsedBindingKey.parse'
 
@@ -38,10 +39,14 @@ def _atom_parse(e):
 def run(ctx):
   prog = ctx.prog
   ctx.assume('T3')
+  allowed_stores(ctx, 'C11.guards', {PARSE: set(), 'config._might_have_parameter': set(),
+                                     'config.bind_parameter': {'_CONFIG', '_CONFIG_PROVENANCE'}},
+                 'whether a key is acceptable must be decided against the registry as it is now; a remembered verdict survives '
+                 're-registration, method re-homing and interactive redefinition')
   # ---- C11.validate-first
   stores, acc = store_accesses(prog, 'config', ['_CONFIG', '_CONFIG_PROVENANCE'])
   writes = [a for a in acc if a.kind in ('write', 'rebind') and a.func is not None]
-  ctx.expect_at_least('writers of the binding / provenance stores', len(writes), 4)
+  ctx.expect_at_least('writers of the binding / provenance stores', len(writes), 2)
   for a in writes:
     f = a.func
     con = construct(f)
